@@ -595,9 +595,11 @@ func ruleScopeRestore(p *Program, r *Reporter) {
 						good, why = false, "the depth passed at "+p.Pos(c.Pos())+" is not a reading of the scope depth"
 						continue
 					}
-					for _, open := range callsTo(caller, er.addScope) {
-						if dominatesInstr(open, c) && !dominatesInstr(dc, open) {
-							good, why = false, "the scope depth is read ("+p.Pos(dc.Pos())+") after the callee's scope was opened ("+p.Pos(open.Pos())+"): that scope survives the call"
+					for _, opener := range scopeOpeners(p, er) {
+						for _, open := range callsTo(caller, opener) {
+							if dominatesInstr(open, c) && !dominatesInstr(dc, open) {
+								good, why = false, "the scope depth is read ("+p.Pos(dc.Pos())+") after the callee's scope was opened ("+p.Pos(open.Pos())+"): that scope survives the call"
+							}
 						}
 					}
 				}
@@ -671,9 +673,11 @@ func ruleScopePair(p *Program, r *Reporter) {
 		}
 		for _, site := range sites {
 			opened := false
-			for _, open := range callsTo(run, er.addScope) {
-				if dominatesInstr(open, site) && outerCase(p, run, open.Pos()) == outerCase(p, run, site.Pos()) {
-					opened = true
+			for _, opener := range scopeOpeners(p, er) {
+				for _, open := range callsTo(run, opener) {
+					if dominatesInstr(open, site) && outerCase(p, run, open.Pos()) == outerCase(p, run, site.Pos()) {
+						opened = true
+					}
 				}
 			}
 			r.Check(opened, "call handler opens the callee's scope before re-entering", p.Pos(site.Pos()), "AddScope dominates the call in the same handler", "the interpreter is re-entered for a function body without a new scope: parameters and locals of the function are bound in the caller's scope")
@@ -715,6 +719,41 @@ func ruleScopePair(p *Program, r *Reporter) {
 	}
 	r.Check(resetOpens, "iterator reset opens the loop's scope", p.Pos(run.Pos()), "AddScope in the OpIterationReset handler", "the loop's scope is not opened when iteration starts: loop variables are bound in the enclosing scope and survive the loop")
 	r.Check(stepCloses, "iterator exhaustion closes the loop's scope", p.Pos(run.Pos()), "scope removed on the branch that pushes false", "the loop's scope is not closed when the iteration is exhausted: each completed loop leaves a scope open")
+}
+
+// scopeOpeners: the method that pushes a scope, and every Environment method
+// that calls it on all of its paths (a function-call variant that also records
+// where the callee's scopes begin, say).
+func scopeOpeners(p *Program, er *envRoles) []*ssa.Function {
+	out := []*ssa.Function{er.addScope}
+	for _, fn := range p.LibFns {
+		if fn == er.addScope || fn.Parent() != nil || !recvNamed(fn, "environment", "Environment") {
+			continue
+		}
+		calls := callsTo(fn, er.addScope)
+		if len(calls) == 0 {
+			continue
+		}
+		all := true
+		for _, b := range fn.Blocks {
+			if _, ok := terminator(b).(*ssa.Return); !ok {
+				continue
+			}
+			dom := false
+			for _, c := range calls {
+				if c.Block() == b || c.Block().Dominates(b) {
+					dom = true
+				}
+			}
+			if !dom {
+				all = false
+			}
+		}
+		if all {
+			out = append(out, fn)
+		}
+	}
+	return out
 }
 
 func ruleBindInner(p *Program, r *Reporter) {
@@ -773,6 +812,10 @@ func ruleBindInner(p *Program, r *Reporter) {
 		}
 		for _, s := range sites {
 			key := siteKey(p, a.vmRun, s.Pos(), "binds in the innermost scope via "+fn.Name())
+			if cond := envDependentGuard(p, a.vmRun, s, er.scopeField); cond != nil && innermost {
+				r.Fail(key, p.Pos(cond.Pos()), "whether the name is bound in the new scope depends on what the scopes already hold (a query of the scope stack guards the binding): a `local`, parameter or loop variable whose name exists in the caller, in another activation of the same function or in an enclosing loop is then not bound at all, and the callee reads and overwrites that other variable — recursion computes with one shared variable")
+				continue
+			}
 			if innermost {
 				r.OkNT(key, p.Pos(s.Pos()), "stores into scopes[len(scopes)-1]")
 			} else {
@@ -780,6 +823,80 @@ func ruleBindInner(p *Program, r *Reporter) {
 			}
 		}
 	}
+}
+
+// envDependentGuard: a condition inside the same interpreter case that guards
+// the binding call and is computed from a call of an Environment method.
+// readsScopes: the function (or an Environment method it calls) loads the scope stack.
+func readsScopes(fn *ssa.Function, scopeField string, seen map[*ssa.Function]bool) bool {
+	if seen[fn] {
+		return false
+	}
+	seen[fn] = true
+	for _, b := range fn.Blocks {
+		for _, ins := range b.Instrs {
+			if ld, ok := ins.(*ssa.UnOp); ok && ld.Op == token.MUL && fieldKey(ld.X) == scopeField {
+				return true
+			}
+			if cc := callOf(ins); cc != nil && cc.StaticCallee() != nil && recvNamed(cc.StaticCallee(), "environment", "Environment") {
+				if readsScopes(cc.StaticCallee(), scopeField, seen) {
+					return true
+				}
+			}
+		}
+	}
+	return false
+}
+
+func envDependentGuard(p *Program, run *ssa.Function, site ssa.CallInstruction, scopeField string) ssa.Value {
+	clause := outerCase(p, run, site.Pos())
+	sb := site.Block()
+	for cur := sb; cur.Idom() != nil; cur = cur.Idom() {
+		d := cur.Idom()
+		iff, ok := terminator(d).(*ssa.If)
+		if !ok {
+			continue
+		}
+		s0 := d.Succs[0] == sb || d.Succs[0].Dominates(sb)
+		s1 := d.Succs[1] == sb || d.Succs[1].Dominates(sb)
+		if s0 == s1 {
+			continue
+		}
+		if iff.Cond.Pos().IsValid() && outerCase(p, run, iff.Cond.Pos()) != clause {
+			continue
+		}
+		seen := map[ssa.Value]bool{}
+		var fromEnv func(v ssa.Value, d int) bool
+		fromEnv = func(v ssa.Value, d int) bool {
+			if seen[v] || d > 6 {
+				return false
+			}
+			seen[v] = true
+			switch x := v.(type) {
+			case *ssa.Call:
+				if cal := x.Call.StaticCallee(); cal != nil && recvNamed(cal, "environment", "Environment") && readsScopes(cal, scopeField, map[*ssa.Function]bool{}) {
+					return true
+				}
+			case *ssa.Extract:
+				return fromEnv(x.Tuple, d+1)
+			case *ssa.BinOp:
+				return fromEnv(x.X, d+1) || fromEnv(x.Y, d+1)
+			case *ssa.UnOp:
+				return fromEnv(x.X, d+1)
+			case *ssa.Phi:
+				for _, e := range x.Edges {
+					if fromEnv(e, d+1) {
+						return true
+					}
+				}
+			}
+			return false
+		}
+		if fromEnv(iff.Cond, 0) {
+			return iff.Cond
+		}
+	}
+	return nil
 }
 
 // isInnermostScope: v is *(&scopes[len(scopes)-1]) for the scope stack field.
@@ -1134,6 +1251,53 @@ var stateClasses = map[string]string{
 	"field environment.regCacheLock (sync)": "the cache's mutex",
 }
 
+// scopeCompanion: a slice field of the environment that is only appended to by
+// a method that also opens a scope, and is cut back in the method that
+// truncates the scope stack: it lives and dies with the scope stack, whose
+// restoration by depth on every exit R-SCOPERESTORE checks.
+func scopeCompanion(p *Program, k string) string {
+	if !strings.HasPrefix(k, "field environment.Environment.") {
+		return ""
+	}
+	fk := strings.TrimPrefix(k, "field ")
+	er := resolveEnvRoles(p)
+	if er.truncate == nil || er.addScope == nil {
+		return ""
+	}
+	openers := map[*ssa.Function]bool{}
+	for _, f := range scopeOpeners(p, er) {
+		openers[f] = true
+	}
+	cutInTruncate, n := false, 0
+	for _, fn := range p.LibFns {
+		for _, b := range fn.Blocks {
+			for _, ins := range b.Instrs {
+				st, ok := ins.(*ssa.Store)
+				if !ok || fieldKey(st.Addr) != fk {
+					continue
+				}
+				n++
+				_, isApp := isBuiltinCall(st.Val, "append")
+				_, isSlice := st.Val.(*ssa.Slice)
+				switch {
+				case isApp && openers[fn]:
+				case isSlice && fn == er.truncate:
+					cutInTruncate = true
+				default:
+					if fn.Name() == "init" || isFreshEmpty(st.Val) {
+						continue
+					}
+					return ""
+				}
+			}
+		}
+	}
+	if n == 0 || !cutInTruncate {
+		return ""
+	}
+	return "companion of the scope stack: appended to only where a scope is opened, cut back in " + er.truncate.Name() + " together with the stack (restored by depth on every exit: R-SCOPERESTORE)"
+}
+
 func ruleStateCensus(p *Program, r *Reporter) {
 	a := needAnchors(p, r)
 	if a == nil {
@@ -1329,6 +1493,8 @@ func ruleStateCensus(p *Program, r *Reporter) {
 			r.OkNT("state "+k, p.Pos(g.pos), class+"; written by "+strings.Join(fl, ", "))
 		} else if class, ok := stateNotRunState(k); ok {
 			r.Ok("state "+k, p.Pos(g.pos), class)
+		} else if why := scopeCompanion(p, k); why != "" {
+			r.OkNT("state "+k, p.Pos(g.pos), why+"; written by "+strings.Join(fl, ", "))
 		} else {
 			r.Fail("state "+k, p.Pos(g.pos), "code reachable from the interpreter ("+strings.Join(fl, ", ")+") writes this state and no class (persistent by design / reset at entry / restored on exit / private copy / guarded cache) is recorded for it: it can carry information from one run to the next")
 		}
